@@ -165,6 +165,16 @@ def run_cell(cell, seed):
                     okc, d, ratio = util.compare('inverse(forward(x))', xr[..., :H, :W], util.np64(x),
                                                  1e-10 * G * Gs * float(x.abs().max()))
                     out.append(res(HELD, case, 'M-RT', ratio=ratio) if okc else res(VIOLATED, case, 'M-RT', d, ratio=ratio))
+                # a missing lowpass in this layout: the same as a lowpass of zeros (the zeros are sized from the
+                # coarsest bandpass, whose batch / channel axes depend on (o_dim, ri_dim))
+                case2 = dict(case, check='missing lowpass in this layout')
+                okz, xz = util.call_lib(inv, (torch.zeros_like(yfull[0]), list(yfull[1])))
+                okn, xn_ = util.call_lib(inv, (None, list(yfull[1])))
+                if okz and not okn:
+                    out.append(res(VIOLATED, case2, 'M-RT', 'inverse with lowpass None raised %r; explicit zeros reconstruct' % (xn_,)))
+                elif okz and okn:
+                    okc, d, ratio = cmp_exact('None lowpass vs zeros', xn_, xz, tol * Gs, stats)
+                    out.append(res(HELD, case2, 'M-RT', ratio=ratio) if okc else res(VIOLATED, case2, 'M-RT', d, ratio=ratio))
         return out
     # ---- masks / prefix
     skip, inc = cell['skip'], cell['include']
